@@ -63,7 +63,7 @@ def run(c):
     samples, proto = L.sample_lines(impl)
     for ln, exp, f in samples:
         cases.append((ln, "sample-" + exp, {"file": f}))
-    cases += L.build_cases(c, impl, 250 if c.thorough else 30)
+    cases += L.build_cases(c, impl, 250 if c.thorough else 24)
     mark('generate')
     # 1. verdicts (model vs code)
     res = c.tie("verdict", [l for l, _, _ in cases], impl, model)
